@@ -494,7 +494,7 @@ func c20Handshake(rc *simrt.RunCtx) {
 // c20ConnKarn: the "no sample from a retransmitted packet" rule as the
 // connection applies it, with send callbacks that take their time.
 func c20ConnKarn(rc *simrt.RunCtx) {
-	n := []uint8{1, 3, DefaultN}[rc.Pick(3, "knob.n")]
+	n := []uint8{1, 2, 3, DefaultN}[rc.Pick(4, "knob.n")]
 	lat := time.Duration(1+rc.Pick(10, "net.lat")) * time.Millisecond
 	lag := []time.Duration{0, 50 * time.Millisecond, 500 * time.Millisecond, 2 * time.Second}[rc.Pick(4, "net.sendlag")]
 	dropPm := []int{20, 100, 300}[rc.Pick(3, "net.drop")]
@@ -526,10 +526,12 @@ func c20ConnKarn(rc *simrt.RunCtx) {
 	}
 	var mu sync.Mutex
 	txCount := map[uint8]int{} // transmissions of each sequence number since it was last acknowledged
+	firstTx := map[uint8]time.Duration{}
 	type pend struct {
 		seq    uint8
 		before time.Duration
 		tx     int
+		rtt    time.Duration // for a packet transmitted once: ACK delivery minus transmission
 	}
 	var pending *pend
 	check := func() {
@@ -540,8 +542,21 @@ func c20ConnKarn(rc *simrt.RunCtx) {
 		if pd == nil {
 			return
 		}
-		if after := base(); after != pd.before {
-			rc.Violate("c20.sample-from-retransmission", "base-timeout-changed-by-ack-of-resent-packet", "ACK(%d) acknowledged a packet that had been transmitted %d times; processing it changed the client's base resend timeout from %v to %v (write calls return %v late, one-way latency %v, N=%d)", pd.seq, pd.tx, pd.before, after, lag, lat, n)
+		after := base()
+		if pd.tx >= 2 {
+			if after != pd.before {
+				rc.Violate("c20.sample-from-retransmission", "base-timeout-changed-by-ack-of-resent-packet", "ACK(%d) acknowledged a packet that had been transmitted %d times; processing it changed the client's base resend timeout from %v to %v (write calls return %v late, one-way latency %v, N=%d)", pd.seq, pd.tx, pd.before, after, lag, lat, n)
+			}
+			return
+		}
+		// a packet transmitted once: if this ACK was used as a sample, the new
+		// base is multiplier x its round trip (or the floor) - never more
+		limit := time.Duration(cli.timeoutManager.resendMultiplier)*pd.rtt + time.Millisecond
+		if limit < minimumResendTimeout {
+			limit = minimumResendTimeout
+		}
+		if after != pd.before && after > limit {
+			rc.Violate("c20.sample-from-retransmission", "sample-larger-than-the-round-trip", "ACK(%d) came %v after its packet's only transmission; processing it set the client's base resend timeout to %v (was %v): the sample was measured from some earlier send time (write calls return %v late, one-way latency %v, N=%d)", pd.seq, pd.rtt, after, pd.before, lag, lat, n)
 		}
 	}
 	np.c2s.mu.Lock()
@@ -551,6 +566,9 @@ func c20ConnKarn(rc *simrt.RunCtx) {
 		if len(b) >= 4 && b[0] == DATA {
 			mu.Lock()
 			txCount[b[1]]++
+			if txCount[b[1]] == 1 {
+				firstTx[b[1]] = rc.Now()
+			}
 			mu.Unlock()
 		}
 	}
@@ -569,6 +587,8 @@ func c20ConnKarn(rc *simrt.RunCtx) {
 			if c := txCount[b[1]]; c >= 2 {
 				pending = &pend{seq: b[1], before: base(), tx: c}
 				rc.Probe("c20.ack-of-resent-packet")
+			} else if c == 1 {
+				pending = &pend{seq: b[1], before: base(), tx: 1, rtt: rc.Now() - firstTx[b[1]]}
 			}
 			txCount[b[1]] = 0
 			mu.Unlock()
@@ -592,7 +612,7 @@ func c20ConnKarn(rc *simrt.RunCtx) {
 				break
 			}
 			if simrt.Pm(300, "wl.pause") {
-				time.Sleep(time.Duration(1+simrt.Choose(1500, "wl.pauselen")) * time.Millisecond)
+				time.Sleep(time.Duration(1+simrt.Choose(4000, "wl.pauselen")) * time.Millisecond)
 			}
 		}
 	}()
